@@ -24,6 +24,7 @@ ASSUMPTIONS = [
     "the hand-checked language table (bwverif/langs.py) only lists comment/string forms that are such by the language definition",
     "content comparison tolerates one leading line terminator (some grammars include it in the comment node); for Markdown comment forms all leading line terminators (the node takes the blank line that must follow it)",
     "Kotlin files never put code after a block comment on the same line (known finding C03/kotlin-inline, exercised by its own witness)",
+    "Java text blocks are not used as decoys in the random workload (known finding C03/java-textblock, own witness); Swift: see known finding swift-comments-swallowed",
     "Markdown: a pair's two tags use the same comment family (link-definition vs HTML); blockwatch pairs them on separate stacks",
 ]
 
@@ -199,6 +200,8 @@ def run_job(job, ctx):
             out.append(check_file(ctx, suffix, _md_nested(r, script), flavour, dict(job, j=j)))
     elif job["k"] == "witness-kotlin-inline":
         out.append(_kotlin_witness(ctx, script))
+    elif job["k"] == "witness-java-textblock":
+        out.append(_java_witness(ctx, script))
     return out
 
 
@@ -238,6 +241,27 @@ def _md_nested(r, script):
     blocks = b.blocks()
     return gen.GenFile("markdown", b, blocks, {"layouts": ["md-nested"], "forms": ["xml"], "decoys": 0,
                                                "max_depth": 2, "nested": sum(1 for x in blocks if x.depth), "blocks": len(blocks)})
+
+
+def _java_witness(ctx, script):
+    """Deterministic reproduction of the recorded tree-sitter-java limitation: `//` inside a text block is a comment node."""
+    b = fbm.FB()
+    b.line_text("class A {")
+    b.line_text('  String m1 = """')
+    b.line_text('    // <block name="in-text-block">')
+    b.line_text('    """;')
+    src, attrs = fbm.start_tag(_attrs_fn(script)(0))
+    b.raw("  ")
+    b.open_comment(langs.C_LINE); b.raw(" "); b.tag("start", src, attrs); b.close_comment(); b.nl()
+    b.line_text("  int x = 1;")
+    b.raw("  ")
+    b.open_comment(langs.C_LINE); b.raw(" "); b.tag("end", fbm.END_TAG); b.close_comment(); b.nl()
+    b.line_text("}")
+    g = gen.GenFile("java", b, b.blocks(), {"layouts": ["own"], "forms": ["line"], "decoys": 1, "max_depth": 1, "nested": 0, "blocks": 1})
+    c = check_file(ctx, "java", g, "rel", {"k": "witness-java-textblock"})
+    if c.status == VIOLATED:
+        c.sig = "C03/java-textblock/" + c.sig.split("/", 2)[2]
+    return c
 
 
 def _kotlin_witness(ctx, script):
